@@ -51,7 +51,7 @@ inductive Ty where
   | atomicBool | flag
   | option (t : Ty) | ptr (t : Ty) | result (t : Ty) | resultMeta (t : Ty)
   | override (t : Ty) | spanned (t : Ty) | withOrig (t : Ty)
-  | probe (mask : Nat) (failing : Bool)
+  | probe (mask : Nat) (mode : Nat)
   | synExpr | synPath | synIdent | identString
   | synExprTy (v : SynTypes.ExprVariant)
   | synParse (kind : String)
@@ -68,13 +68,16 @@ namespace Probe
 /-- C15 probe implementer: overrides the hooks selected by `mask`
     (bit 0 word, 1 list, 2 bool, 3 string, 4 char, 5 generic-literal (`from_value`),
     6 expression (`from_expr`)); an overridden hook reports which hook ran (or, for a
-    `failing` probe, returns a span-less custom error naming it) -/
-def ret (failing : Bool) (tag : String) : Outcome Val :=
-  if failing then .err (Err.custom ("probe:" ++ tag)) else .ok (.str tag)
+    failing probe, returns a span-less custom error naming it — mode 1 — or an unspanned bundle of two — mode 2) -/
+def ret (mode : Nat) (tag : String) : Outcome Val :=
+  match mode with
+  | 0 => .ok (.str tag)
+  | 1 => .err (Err.custom ("probe:" ++ tag))
+  | _ => .err (.multi [Err.custom ("probe:" ++ tag), Err.custom ("probe2:" ++ tag)] [] none)   -- an unspanned bundle
 
 def bit (mask i : Nat) : Bool := (mask / 2 ^ i) % 2 == 1
 
-def hooks (mask : Nat) (failing : Bool) : Hooks Val :=
+def hooks (mask : Nat) (failing : Nat) : Hooks Val :=
   { fromWord?   := if bit mask 0 then some (ret failing "word") else none,
     fromList?   := if bit mask 1 then some (fun items => ret failing ("list:" ++ toString items.length)) else none,
     fromBool?   := if bit mask 2 then some (fun b => ret failing ("bool:" ++ toString b)) else none,
@@ -106,7 +109,7 @@ def hooksOf (o : Oracle) (recvHooks : String → Hooks Val := fun _ => {}) : Ty 
   | .override t => Wrappers.overrideOf .explicit .inherit (hooksOf o recvHooks t)
   | .spanned t => Wrappers.spannedOf .spanned (hooksOf o recvHooks t)
   | .withOrig t => Wrappers.withOriginalOf (fun v m => .withOrig v m.toks) (hooksOf o recvHooks t)
-  | .probe mask failing => Probe.hooks mask failing
+  | .probe mask mode => Probe.hooks mask mode
   | .synExpr => SynTypes.exprHooks (o.parseSyn "Expr") .toks
   | .synPath => SynTypes.pathHooks (o.parseSyn "Path") .toks
   | .synIdent => SynTypes.identHooks (o.parseSyn "Ident") .toks
